@@ -1,6 +1,7 @@
 package main
 
 import (
+	"github.com/vulcand/oxy/v2/zverif/buf"
 	"github.com/vulcand/oxy/v2/zverif/c01"
 	"github.com/vulcand/oxy/v2/zverif/c02"
 	"github.com/vulcand/oxy/v2/zverif/c03"
@@ -13,6 +14,12 @@ import (
 )
 
 func init() {
+	parts["c06"] = buf.RunC06
+	replays["c06"] = buf.ReplayC06
+	parts["c07"] = buf.RunC07
+	replays["c07"] = buf.ReplayC07
+	parts["c15"] = buf.RunC15
+	replays["c15"] = buf.ReplayC15
 	parts["c11"] = c11.Run
 	replays["c11"] = c11.Replay
 	parts["c19"] = c19.Run
